@@ -205,3 +205,32 @@ def r2(case, rec):
     require(np.isfinite(r_ref).all() and np.isfinite(r_c).all(), 'non-finite result')
     require_close(r_c, r_ref, 1e-9, '%s re-expressed relative to a reference size %.4g times larger' % (D.DRIVERS[nd].__name__, c),
                   rec, key='rescaling', driver=D.DRIVERS[nd].__name__)
+
+
+# ------------------------------------------------------------------------------------------------ whole models
+from harness import programs as P
+
+
+@st.composite
+def whole_case(draw):
+    big = draw(st.integers(0, 5)) == 0
+    prog = draw(P.program(max_pops=5 if big else 4))
+    return dict(prog=prog, c=draw(G.loguniform(0.05, 20.0)), gamma=draw(st.sampled_from([0.0, 0.0, -3.0, 1.5, -20.0])), h=draw(st.sampled_from([0.5, 0.5, 0.2, 0.9])))
+
+
+@REG.relation('R3-whole-models', strategy=whole_case, quick=(300, 16), thorough=(6000, 16))
+def r3(case, rec):
+    """A whole model built from the public API (equilibrium, size changes incl. exponential and linear growth, branches, splits,
+    admixture, pulses, removal, migration, selection, frozen populations) re-expressed relative to a reference size c times larger
+    gives the same spectrum."""
+    prog, c = case['prog'], case['c']
+    f = P.features(prog)
+    lab = ['pops=%d' % f['max_pops']] + [k for k in ('true_split', 'mig', 'pulse', 'growth', 'admix', 'remove') if f[k]] + (['frozen'] if f['ancient'] else []) + \
+          (['selection'] if case['gamma'] else ['neutral'])
+    rec.case(case, (c < 0.8 or c > 1.25) and f['max_pops'] >= 2, lab)
+    with dadi_call('whole model'):
+        a = P.run_native(prog, gamma=case['gamma'], h=case['h'])
+        b = P.run_native(prog, rescale=c, gamma=case['gamma'], h=case['h'])
+    m = ~np.ma.getmaskarray(a)
+    require_close(np.asarray(np.ma.getdata(b), float)[m], np.asarray(np.ma.getdata(a), float)[m], 1e-9,
+                  'whole model [%s] re-expressed relative to a reference size %.4g times larger' % (' '.join(lab), c), rec, key='whole-model rescaling')
